@@ -17,6 +17,12 @@ STATE_FILES = re.compile(r"(job_status\.json|job_status_version\.txt|processed_r
 
 
 class ResubSim(Sim):
+    def viol(self, prop, key, text):
+        Sim.viol(self, prop, key, text)
+        if prop == "C02" and key == "started-before-blocker" and self.epoch > 0 and not self.scen.get("c11"):
+            # "each once and in dependency order" is part of C13's own statement
+            Sim.viol(self, "C13", "rerun-out-of-dependency-order", "in a resubmission: " + text)
+
     # ---------------------------------------------------------------- refusal on an incomplete submission
     def user_actions(self, u):
         Sim.user_actions(self, u)
